@@ -17,7 +17,7 @@
    histories (entry c10t) and compares all typed histories, including floats and nested stores, with
    native Go values. *)
 From Coq Require Import String List ZArith Bool Arith Lia.
-From Anko Require Import Base.Assoc Interp.Ast Interp.Value Interp.ToX Interp.Equal Interp.Model Interp.ContainerProofs.
+From Anko Require Import Base.Assoc Interp.Ast Interp.Value Interp.ToX Interp.Equal Interp.Model Interp.ContainerProofs Interp.StringProofs.
 From Anko Require Conv.Convert Conv.Typed Conv.TypedProofs.
 Import ListNotations.
 
@@ -199,6 +199,27 @@ Proof.
   rewrite Z.eqb_refl, Hp, He. reflexivity.
 Qed.
 
+(* strings: for EVERY string and index, the element read at an in-range index is exactly the byte there
+   (the one-byte slice s[i:i+1], whatever the byte's value), an index at or beyond the length is an
+   error, and the elements put together again are the string *)
+Theorem string_element_is_its_one_byte_slice : forall s i, i < String.length s ->
+  index_string s i = TOk (String.substring i 1 s).
+Proof. exact index_string_spec. Qed.
+
+Theorem string_index_beyond_the_end_is_an_error : forall s i, String.length s <= i -> index_string s i = TErr.
+Proof. exact index_string_out. Qed.
+
+Theorem string_is_the_concatenation_of_its_elements : forall s,
+  concat_ok (elements_from s 0 (String.length s)) = Some s.
+Proof. exact rebuilt. Qed.
+
+Example non_ascii_element : index_string (String (Ascii.ascii_of_nat 97) (String (Ascii.ascii_of_nat 195) (String (Ascii.ascii_of_nat 169) EmptyString))) 1
+  = TOk (String (Ascii.ascii_of_nat 195) EmptyString).
+Proof. reflexivity. Qed.
+
+Print Assumptions string_element_is_its_one_byte_slice.
+Print Assumptions string_index_beyond_the_end_is_an_error.
+Print Assumptions string_is_the_concatenation_of_its_elements.
 Print Assumptions views_of_one_array_share_storage.
 Print Assumptions arguments_are_passed_as_values.
 Print Assumptions unpacked_elements_are_assigned_as_values.
